@@ -261,3 +261,13 @@ mod tests {
         assert_eq!(decimals.to_string(), "0.9999999");
     }
 }
+
+// verification hook (guarded; no effect unless --cfg kryptonitedao_krp_staking_contracts_verif)
+#[cfg(kryptonitedao_krp_staking_contracts_verif)]
+pub fn verif_calculate_decimal_rewards(
+    global_index: Decimal,
+    user_index: Decimal,
+    user_balance: Uint128,
+) -> Decimal {
+    calculate_decimal_rewards(global_index, user_index, user_balance)
+}
